@@ -98,6 +98,11 @@ ConjsT == {AndG(<<g1, g2, g3>>) : g1 \in SimpleS, g2 \in SimpleS, g3 \in SimpleS
 ConjsM == {AndG(<<g1, g2>>) : g1 \in SimpleS, g2 \in {Call(Cx("q", <<a, V("$Y")>>)), FailG, CutG, Bip("print", <<V("$X")>>)}}
 DisjsT == {OrG(<<g1, g2>>) : g1 \in ConjsM, g2 \in ConjsM} \cup {OrG(<<g1, g2, g3>>) : g1 \in ConjsS, g2 \in SimpleS, g3 \in ConjsS}
           \cup {OrG(<<g1, g2, g3>>) : g1 \in SimpleS, g2 \in SimpleS, g3 \in SimpleS}
+(* infix arithmetic whose canonical (function) text does not print back (1.0 prints as 1): only the INFIX *)
+(* text is parsed, and must give the function term with exactly these operands                          *)
+IdOps == {IntT(7), IntT(0), IntT(1), FltTx("1.0"), FltTx("0.0"), FltTx("2.5"), V("$X")}
+AltOnly == {UnifyG(V("$R"), Fn(op, <<s1, s2>>)) : op \in {"add", "subtract", "multiply", "divide"}, s1 \in IdOps, s2 \in IdOps}
+           \cup {UnifyG(Fn(op, <<s1, s2>>), V("$R")) : op \in {"add", "multiply"}, s1 \in {IntT(7), FltTx("1.0"), V("$X")}, s2 \in {IntT(0), IntT(1), FltTx("0.0"), FltTx("1.0")}}
 GoalU == Simple \cup Conjs \cup Disjs \cup (IF Thorough THEN ConjsT \cup DisjsT ELSE {})
 Heads == {Cx("h", <<V("$X")>>), Cx("h", <<V("$X"), Lst(<<V("$Y")>>)>>), Cx("h", <<a, IntT(7)>>), Cx("h", <<>>)}
 BodiesR == SimpleS \cup ConjsS \cup {OrG(<<g1, g2>>) : g1 \in ConjsS, g2 \in ConjsS} \cup {AndG(<<g1, g2, g3>>) : g1 \in SimpleS, g2 \in {CutG}, g3 \in SimpleS}
@@ -119,6 +124,7 @@ Prefixes == {x \o y \o z : x \in Sym, y \in Sym, z \in Sym}
 Items ==
     CASE Slice = "terms"   -> {[kind |-> "term", ast |-> t] : t \in TermU} \cup {[kind |-> "raw", ast |-> Atom(r)] : r \in RawTexts}
       [] Slice = "goals"   -> {[kind |-> "goal", ast |-> g] : g \in GoalU} \cup {[kind |-> "rule", ast |-> c] : c \in RuleU}
+                              \cup {[kind |-> "altgoal", ast |-> g] : g \in AltOnly}
       [] Slice = "strings" -> {[kind |-> "string", ast |-> Atom(s)] : s \in Strings3}
                               \cup {[kind |-> "family", ast |-> Atom(s)] : s \in Prefixes}
       [] Slice = "mutants" -> {[kind |-> "seedgoal", ast |-> g] : g \in Simple \cup ConjsS \cup {OrG(<<g1, g2>>) : g1 \in ConjsS, g2 \in ConjsS}}
@@ -132,6 +138,7 @@ PrintIt ==
     /\ it' = [it EXCEPT !.phase = "done",
                 !.text = CASE it.kind \in {"term", "seedterm"} -> PrintTerm(it.ast)
                            [] it.kind \in {"goal", "seedgoal"} -> PrintGoal(it.ast)
+                           [] it.kind = "altgoal" -> AltGoal(it.ast)
                            [] it.kind \in {"rule", "seedrule"} -> PrintRule(it.ast)
                            [] OTHER -> it.ast.s,
                 !.alt = IF it.kind = "goal" /\ HasAlt(it.ast) THEN AltGoal(it.ast)
@@ -165,6 +172,7 @@ Case ==
     CASE it.kind = "term" -> [t |-> "syn-term", text |-> it.text, alt |-> it.alt, ast |-> Pack(it.ast), contexts |-> Contexts(it.text), path |-> <<"term">>]
       [] it.kind = "raw"  -> [t |-> "syn-raw", text |-> it.text, contexts |-> Contexts(it.text), path |-> <<"raw">>]
       [] it.kind = "goal" -> [t |-> "syn-goal", text |-> it.text, alt |-> it.alt, ast |-> PackG(it.ast), path |-> <<"goal">>]
+      [] it.kind = "altgoal" -> [t |-> "syn-altgoal", text |-> it.text, ast |-> PackG(it.ast), path |-> <<"altgoal">>]
       [] it.kind = "rule" -> [t |-> "syn-rule", text |-> it.text, alt |-> it.alt,
                               ast |-> [head |-> Pack(it.ast.head), body |-> PackG(it.ast.body)], path |-> <<"rule">>]
       [] it.kind = "string" -> [t |-> "syn-string", text |-> it.text, path |-> <<"string">>]
